@@ -29,11 +29,15 @@ class LoopCtx:
             return st.loc[name]
         fi = getattr(self.fr, "finfo", None) if self.fr is not None else None
         if fi is not None:
-            from .front import alias_of
+            from .front import alias_of2
 
-            a = alias_of(fi, name)
-            if a is not None and a in st.loc:
-                return st.loc[a]
+            r = alias_of2(fi, name)
+            if r is not None and r[0] in st.loc:
+                if not r[1]:
+                    # a guessed correspondence (restructured function): never trust a counter-model obtained with it
+                    for s_ in (self.st, self.st0):
+                        s_.aux["nonfragment"] = f"heuristic alias {name}->{r[0]}"
+                return st.loc[r[0]]
         # never a crash: a renamed / restructured local that the invariant needs makes the unit undecided
         raise Unsupported(f"the loop invariant of {getattr(fi, 'qualname', '?')} refers to the local `{name}`, which does not exist any more")
 
